@@ -373,3 +373,150 @@ Proof.
   - rewrite Z.mul_1_l. unfold lkeys. rewrite map_app, size_of_app. reflexivity.
 Qed.
 End CCI.
+
+(* ======================================================================== *)
+(* Part 3 : the cost invariant and its verified checker                      *)
+Definition legs_equiv (a b : legs) : Prop := forall j, lget j a = lget j b.
+
+Lemma opt_nat_eqb_eq a b : opt_nat_eqb a b = true -> a = b.
+Proof.
+  destruct a, b; cbn; try congruence. intros H. apply Nat.eqb_eq in H. congruence.
+Qed.
+Lemma lget_none_notin j d : ~ In j (lkeys d) -> lget j d = None.
+Proof.
+  intros H. destruct (lget j d) eqn:E; [|reflexivity]. exfalso. apply H, lget_in_keys. rewrite E. discriminate.
+Qed.
+Lemma legs_equivb_sound a b : legs_equivb a b = true -> legs_equiv a b.
+Proof.
+  unfold legs_equivb. rewrite forallb_forall. intros H j.
+  destruct (in_dec Nat.eq_dec j (lkeys a ++ lkeys b)) as [Hin|Hn].
+  - apply opt_nat_eqb_eq, H, Hin.
+  - rewrite in_app_iff in Hn. rewrite !lget_none_notin by tauto. reflexivity.
+Qed.
+
+Section Inv.
+Variable n : net.
+
+(* every PRESENT cached figure of a node whose subtree is complete equals the from-scratch
+   value of Model/Net.v for the current (children, sliced_inds) *)
+Definition node_cost_ok (s : tstate) (nd : node) (i : ninfo) : Prop :=
+  forall t, tree_of (tfuel s) (children s) nd = Some t ->
+    let isroot := Nat.eqb (length nd) (NN n) in
+    (forall l, i_legs i = Some l -> legs_equiv l (node_legs n (sliced s) isroot t)) /\
+    (forall l, i_involved i = Some l -> legs_equiv l (involved n (sliced s) t)) /\
+    (forall z, i_size i = Some z -> z = node_size n (sliced s) isroot t) /\
+    (forall z, i_flops i = Some z -> z = node_flops n (sliced s) t).
+(* tracked totals equal the sums over the current internal nodes *)
+Definition totals_ok (s : tstate) : Prop :=
+  forall ts, child_trees n s = Some ts ->
+    (trk_flops s = true -> flops_ s = zsum (map (fun bt => node_flops n (sliced s) (snd bt)) ts)) /\
+    (trk_write s = true -> write_ s = zsum (map (fun bt => node_size n (sliced s) (fst bt) (snd bt)) ts)) /\
+    mult s = multiplicity n (sliced s).
+Definition CostInv (s : tstate) : Prop :=
+  (forall nd i, In (nd, i) (info s) -> node_cost_ok s nd i) /\ totals_ok s.
+
+Theorem cost_inv_b_sound s : cost_inv_b n s = true -> CostInv s.
+Proof.
+  unfold cost_inv_b. rewrite andb_true_iff, forallb_forall. intros [Hn Ht]. split.
+  - intros nd i Hin t Ht'. specialize (Hn (nd, i) Hin). unfold node_cost_ok_b in Hn. cbn [fst snd] in Hn.
+    rewrite Ht' in Hn. rewrite !andb_true_iff in Hn. destruct Hn as [[[H1 H2] H3] H4]. cbn zeta.
+    repeat split.
+    + intros l E. rewrite E in H1. apply legs_equivb_sound, H1.
+    + intros l E. rewrite E in H2. apply legs_equivb_sound, H2.
+    + intros z E. rewrite E in H3. apply Z.eqb_eq, H3.
+    + intros z E. rewrite E in H4. apply Z.eqb_eq, H4.
+  - intros ts Hts. unfold totals_ok_b in Ht. rewrite Hts in Ht. rewrite !andb_true_iff in Ht.
+    destruct Ht as [[H1 H2] H3]. repeat split.
+    + intros E. rewrite E in H1. apply Z.eqb_eq, H1.
+    + intros E. rewrite E in H2. apply Z.eqb_eq, H2.
+    + apply Z.eqb_eq, H3.
+Qed.
+
+(* (v) of C02's invariant: every modelled composite that changes (children, index orders,
+   sliced_inds) leaves the compiled-contractor cache EMPTY (or raised) *)
+Lemma cores_reset_recipes s : cores (reset_recipes s) = [].
+Proof. reflexivity. Qed.
+Lemma cores_reset_inds s : cores (reset_inds s) = [].
+Proof. reflexivity. Qed.
+Lemma cores_remove_ind ind pj s : cores (remove_ind n ind pj s) = [] \/ err (remove_ind n ind pj s) = true.
+Proof. unfold remove_ind. destruct (memb ind (removed (sliced s))); [right|left]; reflexivity. Qed.
+Lemma cores_restore_ind ind s : cores (restore_ind n ind s) = [] \/ err (restore_ind n ind s) = true.
+Proof.
+  unfold restore_ind. destruct (find _ (sliced s)); [|right; reflexivity].
+  match goal with |- context [traverse n ?x] => destruct (traverse n x) end; [left|right]; reflexivity.
+Qed.
+Lemma cores_sort_inds pr a b c s : cores (sort_inds n pr a b c s) = [] \/ err (sort_inds n pr a b c s) = true.
+Proof.
+  unfold sort_inds.
+  match goal with |- context [let '(s1, nodes) := ?e in _] => destruct e as [s1 [nodes|]] end;
+    [left|right]; reflexivity.
+Qed.
+End Inv.
+
+(* "incremental = rebuild": the figures are a function of (children, sliced_inds).  Any two
+   states that satisfy the invariant and agree on children and sliced_inds -- e.g. the tree after
+   an arbitrary history and a freshly built one, or the trees reached by slicing/unslicing the
+   same indices in different orders (sliced_inds is kept sorted by SliceInfo's order, so equal
+   sets give equal lists) -- report the same per-node figures and the same totals. *)
+Theorem costinv_determines n s1 s2 : CostInv n s1 -> CostInv n s2 ->
+  children s1 = children s2 -> sliced s1 = sliced s2 ->
+  (forall nd i1 i2 t, In (nd, i1) (info s1) -> In (nd, i2) (info s2) ->
+     tree_of (tfuel s1) (children s1) nd = Some t ->
+     (forall z1 z2, i_size i1 = Some z1 -> i_size i2 = Some z2 -> z1 = z2) /\
+     (forall z1 z2, i_flops i1 = Some z1 -> i_flops i2 = Some z2 -> z1 = z2) /\
+     (forall l1 l2, i_legs i1 = Some l1 -> i_legs i2 = Some l2 -> legs_equiv l1 l2) /\
+     (forall l1 l2, i_involved i1 = Some l1 -> i_involved i2 = Some l2 -> legs_equiv l1 l2)) /\
+  (forall ts, child_trees n s1 = Some ts ->
+     (trk_flops s1 = true -> trk_flops s2 = true -> flops_ s1 = flops_ s2) /\
+     (trk_write s1 = true -> trk_write s2 = true -> write_ s1 = write_ s2) /\
+     mult s1 = mult s2).
+Proof.
+  intros [Hn1 Ht1] [Hn2 Ht2] Ec Es. split.
+  - intros nd i1 i2 t Hi1 Hi2 Ht.
+    assert (Ht2' : tree_of (tfuel s2) (children s2) nd = Some t) by (unfold tfuel in *; rewrite <- Ec; exact Ht).
+    destruct (Hn1 nd i1 Hi1 t Ht) as (A1 & A2 & A3 & A4).
+    destruct (Hn2 nd i2 Hi2 t Ht2') as (B1 & B2 & B3 & B4). rewrite <- Es in *.
+    repeat split.
+    + intros z1 z2 E1 E2. rewrite (A3 z1 E1), (B3 z2 E2). reflexivity.
+    + intros z1 z2 E1 E2. rewrite (A4 z1 E1), (B4 z2 E2). reflexivity.
+    + intros l1 l2 E1 E2 j. rewrite (A1 l1 E1 j), (B1 l2 E2 j). reflexivity.
+    + intros l1 l2 E1 E2 j. rewrite (A2 l1 E1 j), (B2 l2 E2 j). reflexivity.
+  - intros ts Hts.
+    assert (Hts2 : child_trees n s2 = Some ts) by (unfold child_trees, tfuel in *; rewrite <- Ec; exact Hts).
+    destruct (Ht1 ts Hts) as (A1 & A2 & A3). destruct (Ht2 ts Hts2) as (B1 & B2 & B3). rewrite <- Es in *.
+    repeat split.
+    + intros E1 E2. rewrite (A1 E1), (B1 E2). reflexivity.
+    + intros E1 E2. rewrite (A2 E1), (B2 E2). reflexivity.
+    + rewrite A3, B3. reflexivity.
+Qed.
+
+(* ======================================================================== *)
+(* Part 4 : C02 -- conditional composition                                   *)
+Section HistoryValue.
+Variable n : net.
+Variable Value : Type.
+Variable contract_of : tstate -> Value.        (* what tree.contract computes in a state (C01) *)
+Variable einsum_of : list slinfo -> Value.     (* einsum_spec of the sliced / projected network *)
+Variable Good : tstate -> Prop.                (* the full invariant (cost + recipes) *)
+(* C01's theorem, not available in this development yet: a program extracted from a state that
+   satisfies the invariant computes the einsum of the sliced/projected network *)
+Hypothesis program_correct_hyp : forall s, Good s -> contract_of s = einsum_of (sliced s).
+(* the inductive step, NOT proved here (see docs/C02.md): each primitive of the trace preserves
+   the invariant under its precondition [pre] *)
+Variable pre : prim -> tstate -> Prop.
+Hypothesis prim_preserves_hyp : forall p s, Good s -> pre p s -> Good (step n p s).
+
+Fixpoint pre_trace (tr : list prim) (s : tstate) : Prop :=
+  match tr with
+  | [] => True
+  | p :: tr' => pre p s /\ pre_trace tr' (step n p s)
+  end.
+Lemma run_good tr : forall s, Good s -> pre_trace tr s -> Good (run n tr s).
+Proof.
+  induction tr as [|p tr IH]; intros s Hg Hp; [exact Hg|].
+  destruct Hp as [H1 H2]. cbn. apply IH; [apply prim_preserves_hyp; assumption|exact H2].
+Qed.
+Theorem history_value_conditional tr s0 : Good s0 -> pre_trace tr s0 ->
+  contract_of (run n tr s0) = einsum_of (sliced (run n tr s0)).
+Proof. intros Hg Hp. apply program_correct_hyp, run_good; assumption. Qed.
+End HistoryValue.
